@@ -90,6 +90,11 @@ StepInstant(e) ==
          /\ Check(e.max = (IF c >= 0 THEN e.a ELSE e.b) /\ e.min = (IF c <= 0 THEN e.a ELSE e.b), "instant_min_max")
     \* offsets applied to instants / local instants (the local time line has the same day range as the instant line):
     \* the plain route raises outside the range, the "safe" route answers with the before-minimum / after-maximum marker
+    [] e.op = "consts" ->
+         /\ Check(e.i_max = <<InstantMaxDay, 86399, 999999999>> /\ e.i_min = <<InstantMinDay, 0, 0>> /\ e.epoch = Zero3, "instant_range_constants")
+         /\ Check(e.d_max = <<DurMaxDay, 86399, 999999999>> /\ e.d_min = <<DurMinDay, 0, 0>>, "duration_range_constants")
+         /\ Check(e.d_zero = Zero3 /\ e.d_eps = <<0, 0, 1>> /\ e.d_day = <<1, 0, 0>> /\ e.d_week = <<7, 0, 0>>, "duration_unit_constants")
+         /\ Check(e.o_max = OffsetMax /\ e.o_min = OffsetMin /\ e.o_zero = 0, "offset_range_constants")
     [] e.op = "i_local" ->
          LET sum == Add3(e.a, OfSeconds(e.o)) IN
          /\ IF InstantInRange(sum)
@@ -146,7 +151,7 @@ Next == /\ l <= Len(Events)
         /\ l' = l + 1
         /\ LET e == Events[l] IN
              CASE e.op \in {"d_from", "d_add", "d_sub", "d_neg", "d_mul", "d_div", "d_cmp", "d_parts", "d_total"} -> StepDuration(e)
-               [] e.op \in {"i_from_unix", "i_to_unix", "i_plus", "i_minus", "i_diff", "i_cmp", "i_from_utc", "i_local", "l_minus"} -> StepInstant(e)
+               [] e.op \in {"i_from_unix", "i_to_unix", "i_plus", "i_minus", "i_diff", "i_cmp", "i_from_utc", "i_local", "l_minus", "consts"} -> StepInstant(e)
                [] OTHER -> StepOffset(e)
 Spec == Init /\ [][Next]_l
 =============================================================================
